@@ -395,6 +395,11 @@ def bounded(uni, tier, seed):
     e3, f3, s3 = _check_corpus()
     e4, f4 = _check_divisors()
     e3, f3 = e3 + e4, f3 + f4
+    # instance counts over whole architecture trees, including subtrees shared through YAML aliases (family of C17)
+    import random
+    from props import C17
+    e5, f5 = C17.check_arch_trees(random.Random(seed))
+    e3, f3 = e3 + e5, f3 + [dict(f, name="bounded/instances") for f in f5]
     return {"evaluations": e1 + e2 + e3, "distinct_nontrivial": d1, "failures": f1 + f2 + f3, "samples": s1 + s3,
             "exhaustive": tier == "thorough",
             "rule": "real Collector.__build_time on every contiguous block structure of <= 4 Einsums x component lists "
@@ -402,7 +407,8 @@ def bounded(uni, tier, seed):
                     "times against an independent sum-of-max; level names NAME / NAME[0..N], N <= 12, through the real "
                     "Architecture parser (also spelled with inline whitespace); assigned-vs-used component times in the metrics "
                     "dump of the accelerator specs; divisors = clock x instances of the Einsum's own configuration over "
-                    "two-configuration specifications (same / different component names, multiplicities, clocks)"}
+                    "two-configuration specifications (same / different component names, multiplicities, clocks); instance "
+                    "counts over generated architecture trees with YAML-aliased subtrees"}
 
 
 def refute_extra(uni, e):
